@@ -32,9 +32,8 @@ func (m *Map[K, V]) LoadOrStoreFn(key K, f func() V) (V, bool) {
 	if v, loaded := m.Load(key); loaded {
 		return v, true
 	}
-	v := f()
-	m.m.Store(key, v)
-	return v, false
+	//f may run in several callers at once, but only one of their values is stored and all callers see that one
+	return m.LoadOrStore(key, f())
 }
 
 func (m *Map[K, V]) Delete(key K) {
